@@ -16,6 +16,8 @@ RULE = ("hist: a random history (4-33 ops) of deliveries, raw HTTP requests (7 p
         "distinct = distinct input line; non-trivial = the history has at least one delivery and one request or client call "
         "that is answered 200.")
 TRUSTED = [
+    "go/cmd/pins reads the route tables (template, name, method), the mount points and the client's URI prefix from the source on every "
+    "run (coq/Gen/RestRoutes.v); route_tables_sound proves the model's router against them",
     "gorilla/mux route matching on the decoded path, net/http server request parsing and client redirect handling, net/url "
     "QueryEscape/JoinPath/EscapedPath and path.Clean: modelled in Model/Rest.v, validated by correspondence only",
     "MailboxForAddress (C04) is a parameter of the model; the runner instantiates it with the table of calls observed on the implementation",
